@@ -63,8 +63,12 @@ HasChroma(g) == \E k \in 1..Len(g) : Site(g[k]) = Prefix \o "u"
 CellOf(g) == <<Shr(PixOf(g)[1], cur.ssx), Shr(PixOf(g)[2], cur.ssy)>>
 
 \* all groups of one row line are accepted one after the other (pix grows inside the line: checked pairwise distinct)
-RowOk(e) == /\ \A k \in 1..Len(e.groups) : GroupOk(e.groups[k])
-            /\ \A j, k \in 1..Len(e.groups) : j # k => PixOf(e.groups[j]) # PixOf(e.groups[k])
+\* a C07 run judges the bounds only (which sample a pixel may read is C11's business); a C11 run judges everything
+BoundsOnly(e) == e.p = "C07"
+RowOk(e) == IF BoundsOnly(e)
+            THEN \A k \in 1..Len(e.groups) : \A a \in 1..Len(e.groups[k]) : Idx(e.groups[k][a]) < SLen(e.groups[k][a])
+            ELSE /\ \A k \in 1..Len(e.groups) : GroupOk(e.groups[k])
+                 /\ \A j, k \in 1..Len(e.groups) : j # k => PixOf(e.groups[j]) # PixOf(e.groups[k])
 
 Begin == /\ l <= N /\ Rec[l].ev = "loop_begin"
          /\ cur' = Rec[l] /\ pix' = {} /\ ucells' = {} /\ vcells' = {} /\ skipping' = FALSE /\ l' = l + 1
@@ -86,13 +90,14 @@ EndObserved ==
          /\ cur.pdims[1] = <<cur.w, cur.h>>
          /\ cur.pdims[2] = <<Shr(cur.w, cur.ssx), Shr(cur.h, cur.ssy)>> /\ cur.pdims[3] = cur.pdims[2]
          /\ ucells = AllCells                        \* encode: every chroma cell written; decode: every cell that has a pixel is read
-EndOk == Unobserved \/ EndObserved
+EndOk == BoundsOnly(Rec[l]) \/ Unobserved \/ EndObserved
 End_ ==  /\ l <= N /\ Rec[l].ev = "loop_end" /\ ~skipping /\ EndOk
          /\ cur' = NoSession /\ UNCHANGED <<pix, ucells, vcells, skipping>> /\ l' = l + 1
 \* a line no step explains: report it, skip to the next begin
 Reject == /\ l <= N /\ ~skipping /\ Rec[l].ev \in {"row", "loop_end"}
           /\ ~(IF Rec[l].ev = "row" THEN cur.kind # "none" /\ RowOk(Rec[l]) ELSE EndOk)
-          /\ PrintT("FAIL " \o ToJson(<<Rec[l].id, Rec[l].p, <<"C11.loop-step-not-allowed-by-spec", Rec[l].ev, cur.kind, Rec[l].sid>>>>))
+          /\ PrintT("FAIL " \o ToJson(<<Rec[l].id, Rec[l].p, <<(IF BoundsOnly(Rec[l]) THEN "C07.loop-access-out-of-bounds" ELSE "C11.loop-step-not-allowed-by-spec"),
+                                                             Rec[l].ev, cur.kind, Rec[l].sid>>>>))
           /\ skipping' = TRUE /\ UNCHANGED <<cur, pix, ucells, vcells>> /\ l' = l + 1
 Skip ==   /\ l <= N /\ skipping /\ Rec[l].ev # "loop_begin"
           /\ UNCHANGED <<cur, pix, ucells, vcells, skipping>> /\ l' = l + 1
